@@ -58,9 +58,9 @@ def parseSOp (members : List String) (j : Json) : R Op := do
     return .writeStruct (← parseDict v) (← wresWith parseDict wA) (fun m => ((members.zip ws).lookup m).getD (.fail .secop))
   | [.str "readMember", m, rA, rB] =>
     return .readMember (← m.getStr?) (← rresWith parseDict rA) (← rresWith (·.getInt?) rB)
-  | [.str "writeMember", m, v, wA, rA, wB] =>
+  | [.str "writeMember", m, v, wA, rA, wB, rB] =>
     return .writeMember (← m.getStr?) (← v.getInt?) (← wresWith parseDict wA) (← rresWith parseDict rA)
-      (← wresWith (·.getInt?) wB)
+      (← wresWith (·.getInt?) wB) (← rresWith (·.getInt?) rB)
   | [.str "assignStruct", v] => return .driverAssignStruct (← parseDict v)
   | [.str "assignMember", m, v] => return .driverAssignMember (← m.getStr?) (← v.getInt?)
   | _ => throw s!"bad struct op {j.compress}"
@@ -75,7 +75,7 @@ def stJson (s : St) : Json :=
 
 def structCfg (j : Json) : R Cfg := do
   let hr ← fldStrs j "hasR"; let hw ← fldStrs j "hasW"
-  return { members := ← fldStrs j "members", combined := ← fldBool j "combined",
+  return { members := ← fldStrs j "members", hasRS := ← fldBool j "hasRS", hasWS := ← fldBool j "hasWS",
            hasR := fun m => hr.contains m, hasW := fun m => hw.contains m }
 
 /-! float/enum -/
